@@ -307,7 +307,8 @@ def judge(reqs, res, box, rep, case, table, with_site=True, fault=None):
 
 
 def reaction_signature(box, q):
-    """what the server sent in reaction to q, without message IDs of fresh messages and without times"""
+    """what the server sent in reaction to q, without times; the message ID relation only for ACK/RST (the ID of a
+    CON/NON message is the node's own choice and may coincide with the request's by chance)"""
     from harness import refcodec as rc
 
     tok = bytes([0xC0, q["serial"] & 0xFF, (q["serial"] >> 8) & 0xFF])
@@ -319,7 +320,7 @@ def reaction_signature(box, q):
             m = e.msg
             if m.token == tok or (m.mid == mid and m.type in (rc.ACK, rc.RST)):
                 seen.add(e.data)
-                out.append(("CON NON ACK RST".split()[m.type], rc.code_str(m.code), "same-mid" if m.mid == mid else "fresh-mid", m.token.hex(), repr(m.options), m.payload.hex()))
+                out.append(("CON NON ACK RST".split()[m.type], rc.code_str(m.code), ("same-mid" if m.mid == mid else "other-mid") if m.type in (rc.ACK, rc.RST) else "own-mid", m.token.hex(), repr(m.options), m.payload.hex()))
     return out
 
 
